@@ -16,7 +16,7 @@ type AReq struct {
 	Hdrs                []Field // application headers, value may contain obs-fold ("\r\n " / "\r\n\t")
 	Framing             string  // none, cl, chunked
 	Body                []byte
-	Chunks              []int   // chunk sizes (remainder goes into a last chunk)
+	Chunks              []int // chunk sizes (remainder goes into a last chunk)
 	Trailers            []Field
 	Expect100           bool
 	Close               bool
